@@ -17,7 +17,7 @@ func H_C09_include() {
 	}
 	body := `<{{ cv }}|{{ . }}|{{ yield callerBlock() }}{{ iy := 1 }}>`
 	files := []string{
-		"/main.jet", `{{ block callerBlock() }}CB{{ end }}{{ cv := v }}[` + inc + `]{{ isset(iy) }}|{{ . }}|{{ cv }}`,
+		"/main.jet", `{{ block callerBlock() }}CB{{ end }}{{ cv := v }}[` + inc + `]{{ isset(iy) }}|{{ . }}|{{ cv }}{{ yield callerBlock() }}`,
 	}
 	switch chain {
 	case 0:
@@ -38,7 +38,7 @@ func H_C09_include() {
 		ctx = "C"
 	}
 	vfNote(out)
-	vfAssert(out == "CB[<"+v+"|"+ctx+"|CB>]false|D|"+v, "included in place with the caller's variables, blocks and context; nothing leaks back")
+	vfAssert(out == "CB[<"+v+"|"+ctx+"|CB>]false|D|"+v+"CB", "included in place with the caller's variables, blocks and context; nothing leaks back")
 }
 
 // c09Exec: templates run by exec and the value the last executed return gives (or "" for nil).
@@ -71,7 +71,7 @@ func H_C09_exec() {
 	chain := ndChoice("chain", 3)
 	body := `noise<{{ "x" }}{{ try }}t{{ end }}` + c09Exec[c][0]
 	files := []string{
-		"/main.jet", `[{{ r := exec("/e.jet") }}{{ isset(r) ? r : "" }}]after`,
+		"/main.jet", `{{ block own() }}O{{ end }}[{{ r := exec("/e.jet") }}{{ isset(r) ? r : "" }}]after{{ yield own() }}`,
 		"/plain.jet", `p`,
 		"/ret.jet", `{{ return "r3" }}`,
 	}
@@ -90,7 +90,7 @@ func H_C09_exec() {
 	vfReach("returned")
 	vfAssert(err == nil, "renders")
 	vfNote(out)
-	vfAssert(out == "["+c09Exec[c][1]+"]after", "output discarded; value of the last executed return; writer restored")
+	vfAssert(out == "O["+c09Exec[c][1]+"]afterO", "output discarded; value of the last executed return; writer and blocks restored")
 }
 
 // H_C09_execFails: when the executed template fails, the error propagates and the
@@ -123,8 +123,8 @@ func H_C09_includeIfExists() {
 	if withCtx {
 		call = `includeIfExists("/i.jet", "C")`
 	}
-	files := []string{"/main.jet", `{{ cv := "V" }}[{{ if ` + call + ` }}Y{{ else }}N{{ end }}]{{ . }}`}
-	body := `<{{ cv }}{{ . }}>`
+	files := []string{"/main.jet", `{{ block own() }}OWN{{ end }}{{ cv := "V" }}[{{ if ` + call + ` }}Y{{ else }}N{{ end }}]{{ . }}{{ yield own() }}{{ isset(theirs) }}`}
+	body := `{{ block theirs() }}{{ end }}<{{ cv }}{{ . }}>`
 	if exists {
 		switch chain {
 		case 0:
@@ -144,9 +144,9 @@ func H_C09_includeIfExists() {
 		if withCtx {
 			ctx = "C"
 		}
-		vfAssert(out == "[<V"+ctx+">Y]D", "existing template included in place; evaluates to true")
+		vfAssert(out == "OWN[<V"+ctx+">Y]DOWNfalse", "existing template included in place; evaluates to true; the caller's blocks are intact afterwards")
 	} else {
 		vfReach("missing")
-		vfAssert(out == "[N]D", "missing template renders nothing; evaluates to false")
+		vfAssert(out == "OWN[N]DOWNfalse", "missing template renders nothing; evaluates to false")
 	}
 }
